@@ -13,7 +13,7 @@ pub fn mon() -> Mon {
         run,
         finish,
         replay,
-        rule: "Encoder catalogue with the destination and the context's own address each swept through all 256 byte values on every call form, 256x256 (own, destination) pairs on selected forms (all forms in the thorough tier), every message type the API can emit, random products. Each Ok output is checked literally: b4 == 0x01, b5 == destination, b6 == own address, b7 == 0xC8 for requests/vendor/SPDM and (b7 & 0xF0) == 0xC0 for control responses, b8 == type code of the API used (0x00, 0x7E, 0x7F, 0x05, 0x06). Non-trivial = a packet was judged; distinct = distinct (form, bytes 4..8).",
+        rule: "Encoder catalogue (plus the responses process_packet encodes for forged requests) with the destination and the context's own address each swept through all 256 byte values on every call form, 256x256 (own, destination) pairs on selected forms (all forms in the thorough tier), every message type the API can emit, random products. Each Ok output is checked literally: b4 == 0x01, b5 == destination, b6 == own address, b7 == 0xC8 for requests/vendor/SPDM and (b7 & 0xF0) == 0xC0 for control responses, b8 == type code of the API used (0x00, 0x7E, 0x7F, 0x05, 0x06). Non-trivial = a packet was judged; distinct = distinct (form, bytes 4..8).",
         assumptions: &[
             "tag-owner and message tag of control responses are left open by the statement and are not judged",
             "the trait-level control generator is judged like a response (SOM/EOM/sequence only) because the caller supplies the Rq bit",
@@ -87,7 +87,43 @@ fn run(cfg: &RunCfg) -> Report {
     let mut rep = Report::new();
     let p = plan(cfg);
     for_each_call(cfg, "c05", &p, &mut |c, _| check(c, &mut rep));
+    let n = if cfg.is_small() { 200 } else { cfg.pick(40_000, 4_000_000) };
+    let mut rrep = Report::new();
+    for_each_response(cfg, "c05-responder", n, &mut |req, resp, who, rep| check_response(req, resp, who, rep), &mut rrep);
+    rep.merge(rrep);
     rep
+}
+
+/// Transport header of the packets process_packet encodes (destination named = the requester's EID).
+pub fn check_response(req: &[u8], resp: &[u8], who: &crate::libapi::CtxCfg, rep: &mut Report) {
+    rep.eval();
+    rep.class("responder:response");
+    let mut k = [0u8; 6];
+    k[..5].copy_from_slice(&resp[4..9]);
+    k[5] = 0xEE;
+    rep.nontrivial(hash_bytes(5, &k));
+    let mut bad = |what: &str, detail: String| {
+        rep.violation(
+            &format!("process_packet-response:{}", what),
+            || format!("{}; request {} -> response {} (responder {:#04x})", detail, crate::json::hex(req), crate::json::hex(resp), who.addr),
+            || format!("resp|{}|{}", who.encode(), crate::json::hex(req)),
+        );
+    };
+    if resp[4] != 0x01 {
+        bad("b4-version", format!("byte 4 {:#04x} != 0x01", resp[4]));
+    }
+    if resp[5] != req[6] {
+        bad("b5-dest-eid", format!("byte 5 {:#04x} != requester EID {:#04x}", resp[5], req[6]));
+    }
+    if resp[6] != who.addr {
+        bad("b6-source-eid", format!("byte 6 {:#04x} != own address {:#04x}", resp[6], who.addr));
+    }
+    if resp[7] & 0xF0 != 0xC0 {
+        bad("b7-flags", format!("byte 7 {:#04x}: SOM/EOM/seq != 1/1/0", resp[7]));
+    }
+    if resp[8] != 0x00 {
+        bad("b8-type", format!("byte 8 {:#04x} != control type", resp[8]));
+    }
 }
 
 fn finish(rep: &mut Report, cfg: &RunCfg) {
@@ -102,6 +138,9 @@ fn finish(rep: &mut Report, cfg: &RunCfg) {
 }
 
 fn replay(case: &str, rep: &mut Report) -> Result<(), String> {
+    if let Some(rest) = case.strip_prefix("resp|") {
+        return replay_response(rest, rep, &mut |q, r, w, rep| check_response(q, r, w, rep));
+    }
     let c = Call::decode(case).ok_or("cannot parse case")?;
     check(&c, rep);
     Ok(())
